@@ -42,7 +42,7 @@ func (e *Entry) Key() string    { return e.S.Name + "/" + e.D.Name }
 func (e *Entry) String() string { return e.Fn + "[" + e.S.Name + "," + e.D.Name + "]" }
 
 // MaxFix is the largest fixture construction order NewBlockShape knows.
-const MaxFix = 10
+const MaxFix = 11
 
 // Entries lists the 169 built-in instantiations in a fixed order, then the 34 named ones.
 var Entries []*Entry
@@ -215,6 +215,17 @@ func mk[S, D signal.SignalTypes](fn, s, d string, conv func(*signal.Buffer[S], *
 					base = signal.Alloc[S](la)
 					dpar := signal.Alloc[D](la)
 					lo, dbuf = dpar.Slice(0, fr), dpar.Slice(fr, 2*fr)
+				}
+				if fix == 11 {
+					// same-type instantiations: source and destination are adjacent windows of one
+					// parent (the destination starting where the source ends); other instantiations
+					// cannot share storage and run as fix 0 with whole frames
+					la := a
+					la.Length, la.Capacity = 2*fr, 2*fr
+					par := signal.Alloc[S](la)
+					if d2, ok := any(par.Slice(fr, 2*fr)).(*signal.Buffer[D]); ok {
+						base, dbuf = par.Slice(0, fr), d2
+					}
 				}
 				if fix == 9 && fr >= 1 {
 					// the source was converted into a shorter destination (one frame) before: a
